@@ -2363,8 +2363,8 @@ class PitHist(Output):
 
             N = np.histogram(pit, edges)[0]
             y = N * 1.0 / sum(N) * 100
-            width = 1.0 / (len(edges)-1)
-            mpl.bar(edges[0:-1], y, width=width, color=self._bar_color)
+            width = np.diff(edges)
+            mpl.bar(edges[0:-1], y, width=width, align='edge', color=self._bar_color)
 
             # Plot expected mean line
             mpl.plot([0, 1], [100.0 / num_bins, 100.0 / num_bins], 'k--')
